@@ -1,25 +1,20 @@
+use solstat_mc::corpus::Tier;
 use solstat_mc::*;
+
 fn main() {
-    let t0 = std::time::Instant::now();
-    let c = corpus::build(corpus::Tier::Quick);
-    eprintln!("generated {} distinct {} in {:?}", c.generated, c.progs.len(), t0.elapsed());
-    for (f, n) in &c.families { eprintln!("  {} {}", f, n); }
-    let res = util::par_map(c.progs.len(), |i| {
-        let p = &c.progs[i];
-        let (text, offs) = synth::render_l1(&p.toks);
-        match solang_parser::parse(&text, 0) {
-            Err(e) => Err(format!("PARSE {:?}", e.iter().map(|d| d.message.clone()).collect::<Vec<_>>())),
-            Ok((su, _)) => { let t = rtree::RTree::convert(&su); synth::conform(p, &t, &offs).map(|_| t.nodes.iter().map(|n| (n.slot, n.kind)).collect::<Vec<_>>()) }
-        }
-    });
-    let mut bad = 0; let mut kinds = std::collections::BTreeMap::new();
-    let mut slots = std::collections::HashSet::new(); let mut pairs = std::collections::HashSet::new();
-    for (i, r) in res.iter().enumerate() {
-        match r { Err(e) => { bad += 1; let k = c.progs[i].tag.split(':').next().unwrap().to_string() + &e[..e.len().min(40)]; let ent = kinds.entry(k).or_insert((0usize, i)); ent.0 += 1; }
-          Ok(v) => for (s,k) in v { slots.insert(*s); pairs.insert((*s,*k)); } }
+    let args: Vec<String> = std::env::args().collect();
+    if args.len() < 2 {
+        eprintln!("usage: mc <Cnn> [quick|thorough] | mc replay <file>");
+        std::process::exit(2);
     }
-    eprintln!("bad {} / {}  in {:?}", bad, res.len(), t0.elapsed());
-    for (k, (n, i)) in kinds.iter().take(60) { eprintln!("{} x{}\n    tag={}\n    src={}\n    err={}", k, n, c.progs[*i].tag, c.progs[*i].toks.join(" "), res[*i].as_ref().err().unwrap()); }
-    for s in rtree::ALL_SLOTS { if !slots.contains(s) { eprintln!("UNVISITED SLOT {}", s); } }
-    eprintln!("slots {} pairs {}", slots.len(), pairs.len());
+    let tier_s = args.get(2).cloned().or_else(|| std::env::var("VERIF_TIER").ok()).unwrap_or_else(|| "quick".to_string());
+    let tier = if tier_s == "thorough" { Tier::Thorough } else { Tier::Quick };
+    let code = match args[1].as_str() {
+        "C01" => c01::run(tier),
+        other => {
+            eprintln!("unknown check {}", other);
+            2
+        }
+    };
+    std::process::exit(code);
 }
